@@ -148,5 +148,6 @@ pub fn g_scale(e: &Ev, t: f64, y: &[f64]) -> f64 {
         Ev::Const { v } => v.abs(),
         Ev::Scaled { k, g } => crate::instr::ldexp(g_scale(g, t, y), *k),
         Ev::Pos { .. } => 2.5,
+        Ev::Mirror { g } => g_scale(g, -t, y),
     }
 }
